@@ -146,8 +146,9 @@ def who_may_call(rep, u):
     fv = tp.need(u, "tpt_ev_post_validate")
     rep.functions.add(fv.name)
     if "tpt_ev_post_validate" in callers:
+        res_ids = core.result_locals(fv, {"tpt_ev_validate"})
         r_mpt.check_guard(rep, fv, "tpt_ev_validate()==0",
-                          lambda n, ps: (n.get("k") == "ref" and n["n"] == "error") or (n.get("k") == "call" and n.get("fn") == "tpt_ev_validate"),
+                          lambda n, ps: (n.get("k") == "ref" and n.get("id") in res_ids) or (n.get("k") == "call" and n.get("fn") == "tpt_ev_validate"),
                           (0, 22), (0,), targets=callers["tpt_ev_post_validate"], target_desc="tpt_ev_post call")
     # the variable tested is the validator's result
     ok = any(c.get("fn") == "tpt_ev_validate" for pos, root, c, ps in fv.calls())
